@@ -4,6 +4,7 @@ import (
 	"bytes"
 	"fmt"
 	"go/token"
+	"strings"
 
 	"golang.org/x/tools/go/ssa"
 
@@ -133,7 +134,7 @@ var ruleZipMarkers = &core.Rule{ID: "R19.1", Min: 8,
 		s.Check(hasCT, "first-entry list contains [Content_Types].xml", c.Pos(w.Pos()), "present", "a package whose first entry is [Content_Types].xml would not be walked")
 	}}
 
-var ruleZipSignatures = &core.Rule{ID: "R19.2", Min: 12,
+var ruleZipSignatures = &core.Rule{ID: "R19.2", Min: 10,
 	Doc: "stored-mimetype formats: for every zip descendant whose detector is offset(sig, k): k = 30 (name offset in the local file header) and sig = \"mimetype\" + the node's registered type; when one signature is a proper prefix of another's the longer one is its child (so that the first match is the most specific)",
 	Run: func(c *core.Ctx, s *core.Sink) {
 		tm := tree.Get(c)
@@ -162,6 +163,23 @@ var ruleZipSignatures = &core.Rule{ID: "R19.2", Min: 12,
 			}
 		}
 		visit(z)
+		// every OpenDocument / EPUB node must be decided by the stored mimetype entry alone
+		var all func(n *tree.Node)
+		all = func(n *tree.Node) {
+			for _, ch := range n.Children {
+				all(ch)
+				if strings.HasPrefix(ch.Mime, "application/vnd.oasis.opendocument.") || ch.Mime == "application/epub+zip" {
+					found := false
+					for _, sn := range sigs {
+						if sn.n == ch {
+							found = true
+						}
+					}
+					s.Check(found, "stored-mimetype detector of "+ch.Name, c.Pos(ch.Pos), "offset(\"mimetype\"+type, 30)", "an OpenDocument / EPUB node is not decided by `mimetype`+type at offset 30 alone: archives whose first entry is the stored mimetype file (e.g. written with data descriptors, sizes 0) would fall back to application/zip")
+				}
+			}
+		}
+		all(z)
 		for _, a := range sigs {
 			for _, b := range sigs {
 				if a.n != b.n && len(a.sig) < len(b.sig) && bytes.HasPrefix(b.sig, a.sig) {
@@ -181,7 +199,30 @@ var ruleZipSignatures = &core.Rule{ID: "R19.2", Min: 12,
 					}
 				}
 			}
-			s.Check(okShape, "offset detector shape of "+a.n.Name, c.Pos(f.Pos()), "HasPrefix(raw[k:], sig)", "the offset constructor does not test a prefix of raw[k:]")
+			// and nothing else decides: the only conditions are len(raw) > k and that HasPrefix
+			extra := ""
+			for _, b := range f.Blocks {
+				if iff := core.IfOf(b); iff != nil {
+					cond, _ := core.StripNot(iff.Cond, true)
+					switch x := cond.(type) {
+					case *ssa.BinOp:
+						if ln, ok := x.X.(*ssa.Call); ok && core.IsBuiltin(&ln.Call, "len") && ln.Call.Args[0] == ssa.Value(f.Params[0]) {
+							continue
+						}
+						if ln, ok := x.Y.(*ssa.Call); ok && core.IsBuiltin(&ln.Call, "len") && ln.Call.Args[0] == ssa.Value(f.Params[0]) {
+							continue
+						}
+						extra = c.Pos(iff.Pos())
+					case *ssa.Call:
+						if !core.CalleeIs(&x.Call, "bytes", "HasPrefix") {
+							extra = c.Pos(iff.Pos())
+						}
+					default:
+						extra = c.Pos(iff.Pos())
+					}
+				}
+			}
+			s.Check(okShape && extra == "", "offset detector shape of "+a.n.Name, c.Pos(f.Pos()), "len(raw) > k && HasPrefix(raw[k:], sig), nothing else", "the offset constructor does not test exactly a prefix of raw[k:] under a length guard (extra condition at "+extra+")")
 			break // one closure body serves all
 		}
 	}}
@@ -294,6 +335,42 @@ var ruleZipWalk = &core.Rule{ID: "R19.5", Min: 5,
 			}
 		}
 		s.Check(n == 3, "marker looked for at the first, the second and the looped entries", c.Pos(w.Pos()), "3 test sites", fmt.Sprintf("%d marker test sites", n))
+		// next-header search: bytes.Index of the local-header signature over an open-ended tail (no upper bound)
+		nIdx := 0
+		for _, ci := range core.Calls(w) {
+			cc := ci.Common()
+			switch {
+			case core.CalleeIs(cc, "bytes", "Index"):
+				nIdx++
+				needle, okN := tree.ConstBytes(cc.Args[1])
+				open := true
+				if sl, ok := cc.Args[0].(*ssa.Slice); ok && sl.High != nil {
+					open = false
+				}
+				s.Check(okN && string(needle) == "PK\x03\x04" && open, fmt.Sprintf("header search #%d", nIdx), c.Pos(ci.Pos()), "bytes.Index(tail, \"PK\\x03\\x04\") over the whole remaining header",
+					"the search for the next local file header is bounded or looks for something other than PK\\x03\\x04: entries behind a large member would not be reached")
+			case core.CalleeIs(cc, "bytes", "HasPrefix"), core.IsBuiltin(cc, "len"):
+			default:
+				g := cc.StaticCallee()
+				okStep := false
+				if g != nil && g.Name() == "Uint32" && g.Pkg != nil && g.Pkg.Pkg.Path() == "encoding/binary" {
+					okStep = true
+				}
+				for _, a := range adv {
+					if ci == ssa.CallInstruction(a) {
+						okStep = true
+					}
+				}
+				if !okStep {
+					name := "dynamic call"
+					if g != nil {
+						name = g.Name()
+					}
+					s.Bad("unrecognised step in the entry walk: "+name, c.Pos(ci.Pos()), "the entry walker calls "+name+", which is not one of its layout steps (cursor move, name test, header search, size field): the walk over the first six entries cannot be confirmed")
+				}
+			}
+		}
+		s.Check(nIdx == 2, "two header searches (second entry, looped entries)", c.Pos(w.Pos()), "2", fmt.Sprintf("%d header searches", nIdx))
 		// all other returns are false
 		for _, r := range core.Returns(w) {
 			if v, ok := core.ConstBool(r.Results[0]); !ok {
